@@ -458,6 +458,20 @@ func (w *world) run(k *Case) (line, impl, oracle string) {
 		created[bs[i].kidIdx]++
 		lastAcc[bs[i].kidIdx] = o.accID
 	}
+	// an account key that is answered 200 ("exists") must have been answered 201 earlier in this
+	// history (account keys are fresh per case): otherwise a refused request left an account behind
+	made := map[int]bool{}
+	for i, o := range outs {
+		ak := k.Reqs[i].AccKey % 3
+		switch o.class {
+		case "201":
+			made[ak] = true
+		case "200":
+			if !made[ak] && (k.Kind == "hist" || k.Sched == "") {
+				viol = append(viol, fmt.Sprintf("req%d:account-exists-without-successful-creation", i))
+			}
+		}
+	}
 	for i := range keys {
 		if created[i] > 1 {
 			viol = append(viol, fmt.Sprintf("key%d:created=%d", i+1, created[i]))
